@@ -169,6 +169,20 @@ Theorem C17_single_loop : forall evs w log g,
 Proof. exact single_loop. Qed.
 Print Assumptions C17_single_loop.
 
+(* trace form, the one the storm monitor applies: in every prefix of every log, loops started (by
+   RefreshLoop directly or from inside a Google / Cognito question) minus loops exited is 0 or 1 per
+   group - however many callers race; before the first exit at most one call answers "started". *)
+Theorem C17_single_loop_trace : forall evs w log pre post g,
+  run w_init evs = (w, log) -> log = pre ++ post ->
+  (count_exits g pre <= count_starts g pre <= count_exits g pre + 1)%nat.
+Proof. exact single_loop_trace. Qed.
+Print Assumptions C17_single_loop_trace.
+
+Theorem C17_one_start_before_exit : forall evs w log g,
+  run w_init evs = (w, log) -> count_exits g log = 0%nat -> (count_starts g log <= 1)%nat.
+Proof. exact one_start_before_exit. Qed.
+Print Assumptions C17_one_start_before_exit.
+
 Theorem C17_loop_start_fresh : forall evs w log pre g w1 post,
   run w_init evs = (w, log) -> log = pre ++ (LoopStart g, OBool true, w1) :: post ->
   exists w0, run w_init (map (fun x => fst (fst x)) pre) = (w0, pre) /\
@@ -200,6 +214,6 @@ Print Assumptions C17_nonvacuous.
    update semantics, fall-back, single fill, single loop - stated on observations only) accepts the
    model's own behaviour on every schedule, and the model never disagrees with itself. *)
 Theorem C17_monitor_accepts_model : forall kind groups evs,
-  judge (Case kind groups false (predict evs)) = 0.
+  judge (Case kind groups false (predict evs) []) = 0.
 Proof. exact judge_model_zero. Qed.
 Print Assumptions C17_monitor_accepts_model.
